@@ -66,3 +66,28 @@ Proof.
   - apply (split_simplex_in_cell gen_wedge_sels 6); try assumption; [reflexivity|].
     apply (sel_lengths gen_wedge_sels 4); [reflexivity | exact Hr].
 Qed.
+
+(* ------------------------------------------------------------------ two cooperating sites: the layout of the split connectivity
+   produced by to_meshtri / to_meshtet and the decoding of a simplex number in element_finder, both regenerated.
+   They agree for ALL cell counts nt and ALL simplex numbers: the decoded number is the cell the simplex was cut from,
+   and the block number is in range. *)
+Ltac layout_decode s :=
+  intros nt k Hnt Hk; cbv [gen_quad_layout gen_quad_decode gen_hex_layout gen_hex_decode gen_wedge_layout gen_wedge_decode fst snd];
+  split; [reflexivity | first [apply Nat.div_lt_upper_bound; lia | apply Nat.mod_upper_bound; lia]].
+
+Lemma quad_layout_decode_agree : forall nt k, (0 < nt)%nat -> (k < 2 * nt)%nat ->
+    snd (gen_quad_layout nt k) = gen_quad_decode nt k /\ (fst (gen_quad_layout nt k) < 2)%nat.
+Proof. layout_decode 2%nat. Qed.
+Lemma hex_layout_decode_agree : forall nt k, (0 < nt)%nat -> (k < 6 * nt)%nat ->
+    snd (gen_hex_layout nt k) = gen_hex_decode nt k /\ (fst (gen_hex_layout nt k) < 6)%nat.
+Proof. layout_decode 6%nat. Qed.
+Lemma wedge_layout_decode_agree : forall nt k, (0 < nt)%nat -> (k < 3 * nt)%nat ->
+    snd (gen_wedge_layout nt k) = gen_wedge_decode nt k /\ (fst (gen_wedge_layout nt k) < 3)%nat.
+Proof. layout_decode 3%nat. Qed.
+
+(* and the layout is the block layout (block k / nt, cell k mod nt) that split_index_map, split_quad and split3 — hence the
+   soundness / completeness theorems of the quadrilateral, hexahedron and prism finders — are stated for *)
+Lemma split_layouts_are_block_layouts : forall nt k,
+    gen_quad_layout nt k = ((k / nt)%nat, (k mod nt)%nat) /\ gen_hex_layout nt k = ((k / nt)%nat, (k mod nt)%nat) /\
+    gen_wedge_layout nt k = ((k / nt)%nat, (k mod nt)%nat).
+Proof. intros nt k. repeat split; reflexivity. Qed.
